@@ -73,6 +73,7 @@ func TestVerifC04ProcChild(t *testing.T) {
 	if err != nil {
 		os.Exit(3)
 	}
+	CrashOnBugs = true // a "counter bug" verdict on the healthy shared file ends the worker: process-died
 	names := c04ProcNames(verifrt.Seed(), round)
 	rnd := verifrt.NewRand(verifrt.Seed(), fmt.Sprintf("c04procs/%d/%d", round, id))
 	m, err := openMapped(path, c04Meta)
